@@ -892,8 +892,25 @@ class RpcServer:
             except pa.ArrowInvalid as exc:
                 with contextlib.suppress(BrokenPipeError, OSError):
                     _write_error_stream(transport.writer, _EMPTY_SCHEMA, exc, server_id=self._server_id)
-                raise
+                if _current_request_batch.get() is None:
+                    # The bytes were not an Arrow IPC stream: framing is lost, end the connection.
+                    raise
+                # The request stream was read to its end (``_read_request`` records the batch
+                # right after draining it); only its contents were unusable.  Answered above.
+                return
             except (VersionError, RpcError) as exc:
+                with contextlib.suppress(BrokenPipeError, OSError):
+                    _write_error_stream(transport.writer, _EMPTY_SCHEMA, exc, server_id=self._server_id)
+                return
+            except (EOFError, StopIteration, OSError):
+                raise  # the connection itself: let the serve loop end
+            except Exception as exc:
+                # A well-framed request whose contents cannot be used: metadata that is not
+                # UTF-8, a value pyarrow cannot turn into a Python object, a malformed
+                # shared-memory pointer, duplicate column names.  ``_read_request`` drains the
+                # request stream before it looks at any of that, so the connection is at a
+                # message boundary: answer with a typed error and keep serving, rather than
+                # let the exception end the serve loop with the peer still waiting.
                 with contextlib.suppress(BrokenPipeError, OSError):
                     _write_error_stream(transport.writer, _EMPTY_SCHEMA, exc, server_id=self._server_id)
                 return
